@@ -131,6 +131,8 @@ def replay(ctx, sub, case):
         return mc.replay_mc(ctx, case, 64000)
     if sub == 'tree-weighted':
         return tree_prop_weighted(case).failures
+    if sub == 'skew':
+        return c01.prop_skew(case).failures
     if 'walk' in case:
         return prop_walk(case).failures
     return prop_tree(case).failures
@@ -156,6 +158,9 @@ def run(ctx):
         c01.run_exhaustive(ctx, 'tree', cases, 'eonverif.props.c02', 'tree_prop')
     if not only or 'tree-weighted' in only:
         behavioural_weighted(ctx, 'tree-weighted', quick)        # many distinct weights, zero-weight nodes and edges
+    if not only or 'skew' in only:
+        from ..runner import run_cases
+        run_cases(ctx, 'skew', [c for c in c01.skew_cases(ctx.seed, quick) if c['sim'] == 'Gillespie_SIS'], c01.prop_skew, case_timeout=600)
     if not only or 'walk' in only:
         run_hypothesis(ctx, 'walk', c01.walk_case(sis=True), prop_walk, 600 if quick else 5000,
                        min_class_fraction={'reinfection': 0.05})
